@@ -229,7 +229,7 @@ def sig(rec, clauses):
     if comp is None and rec.get("k") in ("equiv", "equivb", "mequiv"):
         comp = "%s+%s+%s" % (rec.get("s"), rec.get("c"), rec.get("r"))
     if comp is None:
-        comp = rec.get("w") or rec.get("cls") or rec.get("key") or rec.get("what") or "?"
+        comp = rec.get("w") or rec.get("cls") or rec.get("key") or rec.get("what") or (rec.get("k") == "reimport" and "reimport:" + str(rec.get("s"))) or "?"
     return {"component": comp, "clause": clauses[0] if clauses else "", "kind": rec.get("k", "")}
 
 
@@ -317,6 +317,9 @@ def run(c):
         return ls
 
     plines = rec(state["params"], "params")
+    # the same process history started on the other side of the thread-count threshold of the defaults
+    out = c.record(state["params"], ["env"], out=c.path("params-env8.ndjson"), env={"OMP_NUM_THREADS": 8}, sig={"component": "params-env"})
+    plines += [x for x in open(out).read().splitlines() if x.strip()]
     if state["mpi"][0]:
         plines += rec(state["mpi"][0], "params-mpi")
     else:
@@ -456,7 +459,7 @@ def run(c):
             c.nontrivial.add(("mequiv", r["idx"], r["mat"], r["cfg"], r["np"], r["x_lo"]))
         elif r.get("k") == "equiv" and r["it"] > 0:
             c.nontrivial.add(("equiv", r["idx"], r["mat"], r["cfg"], r.get("seed"), r["x_lo"]))
-    for want in ("tree", "schema", "equiv", "enum", "badtype", "unkrt", "equivp", "equivb", "rebuilt", "array"):
+    for want in ("tree", "schema", "equiv", "enum", "badtype", "unkrt", "equivp", "equivb", "rebuilt", "rtctor", "reimport", "array"):
         if not kinds.get(want):
             raise vcheck.InfraError("no '%s' records were produced" % want)
     if kinds.get("equiv", 0) != scan_ntriples() * (4 if th else 2) * 2 * nseeds:
